@@ -352,5 +352,5 @@ func TestProp(t *testing.T) {
 }
 
 func TestReplay(t *testing.T) {
-	core.Replay(t, selectOne, selectGrid, schedule, stress, earlyWaiters, headAtRead, headOrder, switchCatchUp, undrainedHeads, runIdle, concurrentHeads, refreshMoving, refreshGrid, refreshConcurrent, reachedShort, registrationOrder, selectWaiters, selectWaitersGrid, refreshTraffic, timeoutUnderDeadline)
+	core.Replay(t, selectOne, selectGrid, schedule, stress, earlyWaiters, headAtRead, headOrder, switchCatchUp, undrainedHeads, runIdle, concurrentHeads, refreshMoving, refreshGrid, refreshConcurrent, reachedShort, registrationOrder, selectWaiters, selectWaitersGrid, refreshTraffic, timeoutUnderDeadline, comeAndGo)
 }
